@@ -499,6 +499,9 @@ func (ev *SpecEnv) index(x, i Val) Val {
 			et = x.Ty.Underlying().(*types.Slice).Elem()
 		}
 		es := c.sortFor(et)
+		if c.isDatatypeStruct(et) {
+			return ev.loadPtr(&Ptr{Kind: pObj, Base: c.elemRef(slArr(x.T), sx("bvadd", slOff(x.T), i.T)), Elem: et})
+		}
 		h := c.elemHeap(es)
 		return Val{T: sx("select", sx("select", ev.hget(h), slArr(x.T)), sx("bvadd", slOff(x.T), i.T)), S: es, Ty: et}
 	}
@@ -800,6 +803,12 @@ func (ev *SpecEnv) call(n *Node) Val {
 		ty := ex.resolveType(n.Args[1].String(), ev.pkg)
 		pred := c.implPred(ty)
 		return Val{T: smtAnd(smtNot(sx("=", x.T, "iface_nil")), sx(pred, sx("typeof", x.T))), S: sortBool, Ty: tb}
+	case "unbox":
+		// unbox(i, T): the value of concrete type T held by interface i
+		x := ev.eval(n.Args[0])
+		ty := ex.resolveType(n.Args[1].String(), ev.pkg)
+		_, ub := c.boxFns(ty)
+		return Val{T: sx(ub, x.T), S: c.sortFor(ty), Ty: ty}
 	case "typeid":
 		// typeid(T): run-time type constant of a Go type written as an identifier / selector
 		ty := ex.resolveType(n.Args[0].String(), ev.pkg)
@@ -814,6 +823,15 @@ func (ev *SpecEnv) call(n *Node) Val {
 			es = c.sortFor(x.Ty.Underlying().(*types.Slice).Elem())
 		}
 		return Val{T: sx("select", ev.hget(c.elemHeap(es)), slArr(x.T)), S: arraySort(bvSort(64), es)}
+	case "elem_ref":
+		// elem_ref(s, i): the object identity (&s[i]) of element i of a slice of structs
+		x := ev.eval(n.Args[0])
+		i := ev.coerce(ev.eval(n.Args[1]), bvSort(64), types.Typ[types.Int])
+		var et types.Type
+		if x.Ty != nil {
+			et = x.Ty.Underlying().(*types.Slice).Elem()
+		}
+		return Val{T: c.elemRef(slArr(x.T), sx("bvadd", slOff(x.T), i.T)), S: sortRef, Ty: types.NewPointer(et)}
 	case "arr", "off":
 		x := ev.eval(n.Args[0])
 		if name == "arr" {
